@@ -122,15 +122,15 @@ FactStep(mode, B, st) ==
         k == st.k
         l1 == IF st.l < n THEN st.l + 1 ELSE st.l
         piv == PickFrom(mode, k + 1, l1, k, st.au)
-        sw == [st.au EXCEPT ![k] = st.au[piv], ![piv] = st.au[k]]
+        sw == TLCEval([st.au EXCEPT ![k] = st.au[piv], ![piv] = st.au[k]])
         elim == sw[k][0] # RZero
-        mult == [i \in 0..(n - 1) |-> IF elim /\ i > k /\ i < l1 THEN RDiv(sw[i][0], sw[k][0]) ELSE RZero]
+        mult == TLCEval([i \in 0..(n - 1) |-> IF elim /\ i > k /\ i < l1 THEN RDiv(sw[i][0], sw[k][0]) ELSE RZero])
     IN [au |-> IF elim
                  THEN [i \in 0..(n - 1) |-> IF i > k /\ i < l1
-                          THEN [c \in 0..(mm - 1) |-> IF c < mm - 1 THEN RSub(sw[i][c + 1], RMul(mult[i], sw[k][c + 1])) ELSE RZero]
+                          THEN TLCEval([c \in 0..(mm - 1) |-> IF c < mm - 1 THEN RSub(sw[i][c + 1], RMul(mult[i], sw[k][c + 1])) ELSE RZero])
                           ELSE sw[i]]
                  ELSE sw,
-        al |-> IF elim THEN [st.al EXCEPT ![k] = [c \in 0..(B.m1 - 1) |-> IF k + 1 + c < l1 THEN mult[k + 1 + c] ELSE st.al[k][c]]]
+        al |-> IF elim THEN [st.al EXCEPT ![k] = TLCEval([c \in 0..(B.m1 - 1) |-> IF k + 1 + c < l1 THEN mult[k + 1 + c] ELSE st.al[k][c]])]
                        ELSE st.al,
         idx |-> [st.idx EXCEPT ![k] = piv + 1],
         d |-> IF piv # k THEN -st.d ELSE st.d,
